@@ -11,6 +11,9 @@ Inductive qop :=
 | QWrite (w : wop)
 | QKeys (o_keys : list rk)                                  (* the store's reference keys right now *)
 | QHide (ds : Z)                                            (* the dataset is deleted (not garbage collected) *)
+| QSplit (starts : list uri) (pred : Z) (inverse : bool) (req : list Z) (limits : list Z)
+         (n : nat) (hide : Z)                               (* a paged query (now): its first n pages, then dataset [hide] is deleted, *)
+         (o_pages : option (list (list (Z * Z * Z))))       (* then the continuation list is followed to the end *)
 | QRelated (starts : list uri) (pred : Z) (inverse : bool) (req : list Z) (at_ : Z) (limits : list Z)
            (o_pages : option (list (list (Z * Z * Z)))).   (* observed pages of (start, predicate, related); None = refused *)
 
@@ -83,6 +86,19 @@ Fixpoint pages_match (inverse : bool) (mps : list (list res)) (ops : list (list 
   | _, _ => false
   end.
 
+(** a client following the continuations: the first [n] pages over the keys [K], the others over [K'] *)
+Fixpoint follow_split (q : qflags) (K K' : list rk) (froms : list rfrom) (limits : list Z) (p n fuel : nat) : list (list res) :=
+  match fuel with
+  | O => []
+  | S fuel' =>
+    let lim := nth_limit limits p in
+    let '(rs, cs) := many_related q (match n with O => K' | _ => K end) froms lim (Z.eqb lim 0) in
+    match cs with
+    | [] => [rs]
+    | _ => if lim <=? 0 then [rs] else rs :: follow_split q K K' cs limits (S p) (Nat.pred n) fuel'
+    end
+  end.
+
 (** ** key sets *)
 Definition keys_subset (a b : list rk) : bool := forallb (fun k => kmem k b) a.
 Definition keys_eq (a b : list rk) : bool :=
@@ -95,6 +111,15 @@ Definition agree_op (v : variant) (dss : list Z) (rs : rstore) (o : qop) : bool 
   match o with
   | QWrite _ => true
   | QHide _ => true
+  | QSplit starts pred inverse req limits n hide o_pages =>
+    (* the continuation tokens keep the scope resolved at the first request (internal dataset ids) *)
+    if negb (Z.eqb pred 0) && negb (zmem pred (rs_known rs)) then match o_pages with None => true | Some _ => false end
+    else match to_related_from (v_q v) (rs_known rs) dss starts pred inverse req 4611686018427387904, o_pages with
+         | Some froms, Some ops =>
+           pages_match inverse (follow_split (v_q v) (rs_keys rs) (rs_keys (rhide hide rs)) froms limits 0 n fuel0) ops
+         | None, Some ops => pages_match inverse [[]] ops
+         | _, None => false
+         end
   | QKeys ok => keys_eq (rs_keys rs) ok
   | QRelated starts pred inverse req at_ limits o_pages =>
     match query_pages (v_q v) rs dss starts pred inverse req at_ limits fuel0, o_pages with
@@ -140,6 +165,18 @@ Definition spec_op_ok (dss : list Z) (rs : rstore) (o : qop) : bool :=
       let obs := concat ops in
       let exp := spec_edges (rs_st rs) (rs_known rs) dss starts pred inverse req at_ in
       sub3 obs exp && sub3 exp obs && nodup3 obs
+    | None => negb (Z.eqb pred 0) && negb (zmem pred (rs_known rs))
+    end
+  | QSplit starts pred inverse req limits n hide o_pages =>
+    match o_pages with
+    | Some ops =>
+      (* nothing twice; every row is an edge of the graph when the query started; rows of pages fetched after the delete
+         are edges of the graph without the deleted dataset; every edge that survives the delete is returned *)
+      let obs := concat ops in
+      let before := spec_edges (rs_st rs) (rs_known rs) dss starts pred inverse req 4611686018427387904 in
+      let hidden := rhide hide rs in
+      let after := spec_edges (rs_st hidden) (rs_known rs) dss starts pred inverse req 4611686018427387904 in
+      nodup3 obs && sub3 obs before && sub3 (concat (skipn n ops)) after && sub3 after obs
     | None => negb (Z.eqb pred 0) && negb (zmem pred (rs_known rs))
     end
   | _ => true
@@ -198,6 +235,12 @@ Fixpoint predict (v : variant) (dss : list Z) (rs : rstore) (ops : list qop) : l
     match query_pages (v_q v) rs dss starts pred inverse req at_ limits fuel0 with
     | Some pgs => map (fun pg => flat_map (res_obs inverse) pg) pgs
     | None => [[(-2, -2, -2)]]
+    end :: predict v dss rs ops'
+  | QSplit starts pred inverse req limits n hide _ :: ops' =>
+    match to_related_from (v_q v) (rs_known rs) dss starts pred inverse req 4611686018427387904 with
+    | Some froms => map (fun pg => flat_map (res_obs inverse) pg)
+                        (follow_split (v_q v) (rs_keys rs) (rs_keys (rhide hide rs)) froms limits 0 n fuel0)
+    | None => [[]]
     end :: predict v dss rs ops'
   | QKeys _ :: ops' => map (fun k => [(r_src k, r_pred k, r_tgt k); (r_time k, b2z (r_del k), r_ds k)]) (rs_keys rs) :: predict v dss rs ops'
   end.
